@@ -984,6 +984,21 @@ mutant('D2-created-account-publishes-reset-marker-last', ['C08'], [
 mutant('V1-commit-skips-successor-when-cursor-is-behind', ['C16', 'C05'], [
     ('src/tx_dependency.rs', "        if next < self.num_txs {\n            let mut state = self.dependent_state[next].lock();\n            if state.onboard {", "        if next < self.num_txs && self.index.load(Ordering::Relaxed) > next {\n            let mut state = self.dependent_state[next].lock();\n            if state.onboard {"),
 ], ['|V1|'])
+mutant('V1-next-skips-a-claimable-slot', ['C16', 'C05'], [
+    ('src/tx_dependency.rs', "        if state.onboard && state.dependency.is_none() {\n            state.onboard = false;", "        if state.onboard && state.dependency.is_none() && std::hint::black_box(true) {\n            state.onboard = false;"),
+], ['|V1|'])
+mutant('V1-remove-keeps-a-dependant-that-names-it', ['C16', 'C05'], [
+    ('src/tx_dependency.rs', "            if dependent.dependency == Some(txid) {", "            if dependent.dependency == Some(txid) && std::hint::black_box(true) {"),
+], ['|V1|'])
+mutant('X1-previous-write-set-not-scanned', ['C01', 'C08'], [
+    (S, "                if let Some(last_result) = last_result.as_ref() {\n                    for location in write_set.iter() {", "                if let Some(last_result) = last_result.as_ref() && std::hint::black_box(true) {\n                    for location in write_set.iter() {"),
+], ['|X1|'])
+mutant('L6-guard-cancels-only-sometimes', ['C05'], [
+    (S, "        if thread::panicking() {\n            self.scheduler.cancel();", "        if thread::panicking() && std::hint::black_box(true) {\n            self.scheduler.cancel();"),
+], ['|L6|'])
+mutant('S4-head-error-parked-instead-of-reported', ['C04', 'C05'], [
+    (S, "                    if started_at_commit_head {", "                    if started_at_commit_head && std::hint::black_box(true) {"),
+], ['|S4|'])
 mutant('LC5-validate-stale-test-inverted', ['C05'], [(S, """        if tx_state.incarnation != incarnation {
             self.abort(AbortReason::ParallelError {
                 txid,
